@@ -267,6 +267,23 @@ def steps_spec(cx):
 
     cx.spec["paired_filters_use_mode"] = paired_filters_use_mode
 
+    def stdout_sink_gets_fasta_flag(steps, output, fasta):
+        """When the final output goes to standard output (no -o), the writer of the sink is opened with the --fasta flag."""
+        no_output = output.none if isinstance(output, Opt) else z3.BoolVal(output is None)
+        cs = []
+        for g, it in expand(steps):
+            it_ = it.val if isinstance(it, Opt) else it
+            if not set(step_cls(it_)) <= {"SingleEndSink", "PairedEndSink"}:
+                continue
+            w_ = it_.fields.get("a0")
+            w_ = w_.val if isinstance(w_, Opt) else w_
+            ff = w_.fields.get("kw_force_fasta") if isinstance(w_, ObjV) else None
+            passed = z3.BoolVal(False) if ff is None else (boolify(ff.val) if isinstance(ff, Opt) else boolify(ff))
+            cs.append(z3.Implies(z3.And(g, no_output), passed == fasta))
+        return z3.And(*cs) if cs else z3.BoolVal(True)
+
+    cx.spec["stdout_sink_gets_fasta_flag"] = stdout_sink_gets_fasta_flag
+
     def alts(v):
         """[(condition, None | object)] for a value that may be None, an object, or one of several objects."""
         if v is None:
@@ -354,10 +371,10 @@ StepArgsT = ObjT("Namespace", rest_file=OptT(Str), info_file=OptT(Str), wildcard
                  fasta=Bool, pair_filter=OptT(Str))
 
 
-@contract("cli.py", "make_pipeline_from_args", props=["C11", "C05", "C04"], name="make_pipeline_from_args:steps")
+@contract("cli.py", "make_pipeline_from_args", props=["C11", "C05", "C04", "C19"], name="make_pipeline_from_args:steps")
 def builder_steps(c):
     """The segment of make_pipeline_from_args that assembles the step list (from `def make_filter` to `modifiers = []`)."""
-    c.replay_grid = ["C11", "C05", "C04"]
+    c.replay_grid = ["C11", "C05", "C04", "C19"]
     c.body_from = "def make_filter(predicate1, predicate2, path1, path2, pair_filter_mode=pair_filter_mode)"
     c.body_until = "modifiers = []"
     c.types(args=StepArgsT, paired=Bool, outfiles=ObjT("OutputFiles"), input_file_format=ObjT("FileFormatLike", qualities=Bool),
@@ -376,6 +393,7 @@ def builder_steps(c):
         otherwise_the_requested_pair_filter_mode_applies=f"implies(paired and len(adapters) > 0 and len(adapters2) > 0, untrimmed_pair_mode_is({S}, pair_filter_mode))",
         every_other_pair_filter_uses_the_requested_mode=f"implies(paired, paired_filters_use_mode({S}, pair_filter_mode, 'TooShort', 'TooLong', 'TooManyN', "
                                                         f"'TooManyExpectedErrors', 'TooHighAverageErrorRate', 'CasavaFiltered', 'IsTrimmed'))",
+        fasta_option_reaches_the_writer_of_standard_output=f"stdout_sink_gets_fasta_flag({S}, args.output, args.fasta)",
         length_filters_present_iff_bounds_given=f"present_filter({S}, 'TooShort') == (not is_none(args.minimum_length)) and present_filter({S}, 'TooLong') == (not is_none(args.maximum_length))",
         length_bounds_come_from_the_filters_own_option_one_sided_bound_looks_at_that_side_only=
         f"implies(not is_none(args.minimum_length), length_predicates_from_own_option({S}, 'TooShort', args.minimum_length, paired)) and "
